@@ -467,3 +467,39 @@ func VerifHarness_Diverge() {
 		errors.VerifAssert("recorded-variable-type", let.VarType.String() == vrTypes[t2])
 	}
 }
+
+// VerifHarness_AssignRules: `let v = L; v op= R;` is accepted exactly when `L op R` is admitted and yields the
+// operand type again (the compound assignment and the infix rule tables must agree), for same-typed operands;
+// operands of different types are rejected.
+func VerifHarness_AssignRules() {
+	t1 := errors.VerifNdIntRange("t1", 0, vrScalarTypes-1)
+	t2 := errors.VerifNdIntRange("t2", 0, vrScalarTypes-1)
+	ops := []string{"+", "-", "*", "/", "%", "**", "<<", ">>", "|", "&", "^"}
+	op := ops[errors.VerifNdIntRange("op", 0, len(ops)-1)]
+	errors.VerifTag("stmt", vrTypes[t1]+" "+op+"= "+vrTypes[t2])
+	code := vrMain("  let v = " + vrLits[t1] + ";\n  v " + op + "= " + vrLits[t2] + ";\n  println(v);\n")
+	var an verifAnalysis
+	panicked, _ := errors.VerifPanics(func() { an = verifAnalyze(code, nil, nil, true) })
+	if panicked {
+		errors.VerifReached("analyzer-panicked")
+		return
+	}
+	errors.VerifReached("analyzed")
+	if t1 != t2 {
+		errors.VerifAssert("mixed-operand-types-rejected", an.hasError)
+		return
+	}
+	admitted, known, result := vrOpRule(op, t1)
+	if !known {
+		return
+	}
+	if !admitted || result != t1 {
+		errors.VerifAssert("inadmissible-compound-assignment-rejected", an.hasError)
+		return
+	}
+	if an.hasError {
+		errors.VerifTag("diag", an.describe())
+	}
+	errors.VerifAssert("admissible-compound-assignment-accepted", !an.hasError)
+	errors.VerifReached("accepted")
+}
